@@ -6,9 +6,10 @@ def run(prog, rep):
                        'File::open and the FileHDF5 constructor over (mode, exists, flags): ReadOnly on a missing path throws before '
                        'a backend exists, create vs open branch, the flag reaching H5Fcreate/H5Fopen, createHeader only on create, '
                        'checkHeader(mode, !Force) on every open; checkHeader verdict specification on all abstract paths (missing or '
-                       'wrong format, missing version, missing id are refused); the open path writes only what is absent; and the '
+                       'wrong format, missing version, missing id are refused); the open path writes only what is absent; the backend existence test (which selects create vs open) is exactly whether the path can be opened; and the '
                        'result of every file-mutating HDF5 call is checked, so libhdf5 refusing a write on a read-only file surfaces '
                        'as an exception. Byte identity of the file and content equality are libhdf5 behaviour and not decided.')
     r_hdr.run(prog, rep)
     r_hdr.run_write_free(prog, rep)
+    r_hdr.run_exists(prog, rep)
     r_err.run(prog, rep)
